@@ -1045,6 +1045,12 @@ _PUB = (" The public entry points of these operators (reactivex/operators/__init
         "find_index = find_value_(predicate, yield_index=True)).")
 for _p in ("C05", "C06", "C07", "C09", "C10", "C13", "C14", "C15", "C16", "C17", "C18", "C19", "C24", "C37", "C40"):
     ADDENDA[_p] = ADDENDA.get(_p, "") + _PUB
+_FUT = (" Where the text of an operator asks `is_future`, its inner elements / argument operands are an observable OR a future on separate "
+        "paths of the K1 run; `from_future(f)` stands for its callee contract (the observable of that future).")
+for _p in ("C11", "C12", "C13", "C14", "C17"):
+    ADDENDA[_p] = ADDENDA.get(_p, "") + _FUT
+ADDENDA["C14"] = ADDENDA.get("C14", "") + (" c14run also has pipelines in which the never-ending source is cancelled before its first step "
+                                            "(loser of a merge, loser of amb, replaced by switch_map).")
 for _p, _t in ADDENDA.items():
     if _p in CHECKS:
         CHECKS[_p] = dict(CHECKS[_p], text=CHECKS[_p]["text"] + _t)
